@@ -156,13 +156,12 @@ package client
 // reading lies strictly after its start time and the second strictly before its end time.
 //@ ghost lastEntryStart Time
 //@ ghost lastEntryEnd Time
-//@ ghost ticketRenewed bool
+//@ ghost renewCount int
 //@ func (*client.Client).renewTicket(cl, e) (r, err)
-//@   sets ticketRenewed := true
+//@   sets renewCount := renewCount + 1
 //@ func (*client.Client).GetCachedTicket(cl, spn) (tkt, key, ok)
-//@   requires !ticketRenewed
-//@   havocs lastEntryStart, lastEntryEnd, ticketRenewed
-//@   ensures ok && !ticketRenewed ==> (now#1).After(lastEntryStart) && (now#2).Before(lastEntryEnd)
+//@   havocs lastEntryStart, lastEntryEnd, renewCount
+//@   ensures ok && renewCount == old(renewCount) ==> (now#1).After(lastEntryStart) && (now#2).Before(lastEntryEnd)
 
 // A renewed TGT replaces every field of the session with what the KDC issued in the reply.
 //@ func (*client.session).update(s, tgt, dep)
@@ -170,14 +169,3 @@ package client
 //@   modifies *s
 //@   trusted_frame the session object only
 //@   ensures s.authTime == dep.AuthTime && s.endTime == dep.EndTime && s.renewTill == dep.RenewTill && s.tgt == tgt && s.sessionKey == dep.Key && s.sessionKeyExpiration == dep.KeyExpiration
-
-// A TGT session is used without refreshing it only while more than a sixth of its lifetime remains at the clock
-// reading taken under the session's lock; otherwise it is renewed or the client logs in again.
-//@ ghost sessionRefreshed bool
-//@ func (*client.Client).refreshSession(cl, s) (renewed, err)
-//@   sets sessionRefreshed := true
-//@ func (*client.Client).realmLogin(cl, realm) (err)
-//@   sets sessionRefreshed := true
-//@ func (*client.Client).ensureValidSession(cl, realm) (err)
-//@   requires !sessionRefreshed
-//@   havocs sessionRefreshed
